@@ -210,7 +210,17 @@ def _progress_job(job):
                 q = shf.cells.get(flag(Qq, 'uqueue', 'fifo'), ())
                 if c != len(q):
                     bad.append('at rest the element counter is %r while the queue holds %d elements' % (c, len(q)))
-        ex.explore(done)
+        import time as _t
+        ex.deadline = _t.time() + 120
+
+        def dl2(infos, shared, _d=deadlock):
+            _d(infos, shared)
+            raise conc.Stop()
+        ex.on_deadlock = dl2
+        try:
+            ex.explore(done)
+        except conc.Stop:
+            pass
         res.update(states=ex.states, transitions=ex.transitions, executions=ex.executions, deadlocks=ex.deadlocks)
         if bad:
             res['status'] = VIOLATED
